@@ -60,6 +60,8 @@ def check(run, prog, tier):
     run.rule("C04-B9", "the system-bath operators (plain arrays given in the site basis) are combined with basis-managed data only "
                        "where the basis in force is established", minimum=6)
     rule_B9(run, prog)
+    run.rule("C04-B13", "the stack of basis ids and the stack of transformation matrices are pushed and popped together", minimum=3)
+    rule_B13(run, prog)
     run.rule("C04-B12", "arithmetic between basis-managed objects reads the other operand through its managed property", minimum=2)
     rule_B12(run, prog)
     run.rule("C04-B11", "a managed object created inside a method from the data of self owns its array (objects created inside a "
@@ -745,6 +747,39 @@ def rule_B5(run, prog):
 
 MANAGED_FACTORIES = ("BasisManagedRealArray", "BasisManagedComplexArray", "basis_managed_array_property",
                      "ManagedRealArray", "ManagedComplexArray", "managed_array_property")
+
+
+def rule_B13(run, prog):
+    """'After the context is left ... the basis bookkeeping is back in its previous state': the Manager keeps the stack of
+    basis ids and, at the same positions, the stack of transformation matrices (the matrix at position k takes basis k-1
+    to basis k).  Entering a context pushes on both, leaving it pops from both; get_basis_transformation walks the two
+    together.  The two lists stay a stack of pairs only if every method that changes one changes the other in the same
+    way in the same block (the lockstep rule of C10-I, here over `self.<list>` in the Manager and
+    `self.manager.<list>` in the context managers)."""
+    from .c10 import list_ops, lockstep_mismatch
+    rid = "C04-B13"
+    attrs = ["basis_stack", "basis_transformations"]
+    n = 0
+    for f in prog.all_functions():
+        if not f.qualname.startswith("quantarhei.core.managers."):
+            continue
+        ops = list_ops(f.node.body, attrs, recv=("self", "self.manager", "manager", "m"))
+
+        def flat(o):
+            return [x for x in o if x[0] != "block"] + [y for x in o if x[0] == "block" for y in flat(x[1])]
+        if not flat(ops):
+            continue
+        n += 1
+        prog.consulted.add(f.relpath)
+        mm = lockstep_mismatch(ops, attrs)
+        run.obligation(rid, f.short, mm is None, key="basis-stacks-in-step",
+                       message="%s changes the stack of basis ids and the stack of transformations out of step (%s): after it a basis "
+                               "id is paired with the transformation of another context, and objects are transformed back with the "
+                               "wrong matrix" % (f.short, "; ".join("%s: %s" % (a, ", ".join("%s(%s)" % o for o in q) or "nothing")
+                                                                    for a, q in mm[1].items()) if mm else ""),
+                       loc=f.loc(mm[0]) if mm else f.loc(f.node))
+    if n < 3:
+        raise AnalysisError("C04-B13: only %d functions change the basis stacks (constructor, set_new_basis, __exit__ confirmed)" % n)
 
 
 def rule_B12(run, prog):
